@@ -651,7 +651,7 @@ theorem pns_load (sg w t) : PNS ms c σ asg (.load sg w t) := by
 
 theorem pns_all (e : CExpr) : PNS ms c σ asg e := by
   refine CExpr.rec (motive_1 := PNS ms c σ asg) (motive_2 := PNSs ms c σ asg)
-    ?reg ?imm ?lit ?var ?cast ?un ?not ?bin ?shift ?cmp ?log ?tern ?macroc ?load ?post ?call ?stmtexpr ?seqexpr ?nil ?cons e
+    ?reg ?imm ?lit ?var ?cast ?un ?not ?bin ?shift ?cmp ?log ?tern ?macroc ?load ?post ?call ?stmtexpr ?seqexpr ?callx ?xmacro ?nil ?cons e
   case reg => exact fun n k t => pns_of_pn (pn_reg asg n k t) (fun h => by rw [CarveNSem] at h; rw [CarveN]; exact h)
   case imm => exact fun l s => pns_of_pn (pn_imm asg l s) (fun _ => by rw [CarveN])
   case lit => exact fun v h s => pns_of_pn (pn_lit asg v h s) (fun h => by rw [CarveNSem] at h; rw [CarveN]; exact h)
@@ -670,6 +670,8 @@ theorem pns_all (e : CExpr) : PNS ms c σ asg e := by
   case call => intro n a r p _ hc; rw [CarveNSem] at hc; cases hc
   case stmtexpr => intro t v e _ hc; rw [CarveNSem] at hc; cases hc
   case seqexpr => intro n x a p v _ _ hc; rw [CarveNSem] at hc; cases hc
+  case callx => intro n x a r p _ hc; rw [CarveNSem] at hc; cases hc
+  case xmacro => intro n x r hc; rw [CarveNSem] at hc; cases hc
   case nil => exact pnss_nil
   case cons => exact fun a as iha ihas => pnss_cons hms hinv a as iha ihas
 
